@@ -311,9 +311,11 @@ func runC12Grid(args []string) error {
 	}
 	// (C) ungated results: every goroutine count gives the bytes of g = 1 (run under -race by the check);
 	// beyond the grid: long shards just above multiples of 32 KiB, 64 KiB and 2 MiB (chunked schedulers, wide counters)
-	lensC := append(append([]int{}, lens...), 32770, 32768+14, 65540, 65548, 98312, 131086, 2097152+70)
+	lensC := append(append([]int{}, lens...), 32770, 32768+14, 65540, 65548, 98312, 131086, 2097152+70,
+		// a few whole 64 KiB blocks plus a remainder, with goroutine counts that do not divide the block count
+		262146, 393316, 589856, 655360+18)
 	for _, l := range lensC {
-		if !thorough && l > 200 && l%5 != 0 {
+		if !thorough && l > 200 && l%5 != 0 && l < 200000 {
 			continue
 		}
 		d, p := 1+rng.Intn(5), 1+rng.Intn(4)
@@ -327,7 +329,7 @@ func runC12Grid(args []string) error {
 			return err
 		}
 		par1 := c1.GenerateParity(data)
-		for _, g := range []int{2, 3, 5, 8, 16, 33, 40} {
+		for _, g := range []int{2, 3, 4, 5, 6, 7, 8, 16, 33, 40} {
 			cg, _ := rsec16.NewCoderPAR2Vandermonde(d, p, g)
 			parg := cg.GenerateParity(data)
 			eq := true
